@@ -22,6 +22,9 @@ const repoMod = "github.com/enbility/spine-go"
 
 // Prog is the loaded and resolved program, shared by all engines.
 type Prog struct {
+	scopes     map[*ssa.Function]*helperScope
+	helperCand map[*ssa.Function]bool
+	helperSite map[*ssa.Function]ssa.CallInstruction
 	stableMemo map[*ssa.Function]string
 	instances  map[*ssa.Function][]*ssa.Function
 	RepoDir    string
